@@ -66,6 +66,35 @@ func execStep(context *exprContext, expr *grammar.Grammar) error {
 	}
 
 	switch nextBsr.Label.Slot().NT {
+	case symbols.NT_NodeTestAndPredicate, symbols.NT_StepWithAxisAndNodeTestAndPredicate:
+		// The predicates of a step are evaluated for each context node on
+		// its own: positions count along the axis from that node.
+		if nodeSet, ok := context.result.(NodeSet); ok && len(nodeSet) > 1 {
+			result := make(NodeSet, 0)
+
+			for _, i := range nodeSet {
+				nextContext := context.copy()
+				nextContext.result = NodeSet{i}
+
+				if err := execStep(&nextContext, expr); err != nil {
+					return err
+				}
+
+				nextNodeSet, ok := nextContext.result.(NodeSet)
+
+				if !ok {
+					return errQueryNonNodeset
+				}
+
+				result = append(result, nextNodeSet...)
+			}
+
+			context.result = unionCleanup(result)
+			return nil
+		}
+	}
+
+	switch nextBsr.Label.Slot().NT {
 	case symbols.NT_NodeTest,
 		symbols.NT_NodeTestAndPredicate,
 		symbols.NT_NodeTestNodeTypeNoArgTest,
